@@ -302,7 +302,7 @@ Definition f_saltpack_csprngUint32n : gfunc := mkFunc "saltpack.csprngUint32n" [
       SAssign ["low"] [(EConv "uint32" (EVar "prod"))];
       SIf [] (EBin OLt "bool" (EVar "low") (EVar "n"))
       [SAssign ["thresh"] [(EBin OMod "uint32" (ENeg "uint32" (EVar "n")) (EVar "n"))];
-      SFor (EBin OLe "bool" (EVar "low") (EVar "thresh"))
+      SFor (EBin OLt "bool" (EVar "low") (EVar "thresh"))
       [SAssign ["v"; "err"] [(ECall "csprngUint32" [(EVar "csprng")])];
       SIf [] (EBin ONe "bool" (EVar "err") ENil)
       [SReturn [(EInt (0)); (EVar "err")]]
